@@ -45,6 +45,13 @@ theorem C10_grpc_table : ∀ c : Nat, Gen.GrpcStatus.grpcToHttp c = docTable c :
   · obtain ⟨k, rfl⟩ : ∃ k, c = k + 17 := ⟨c - 17, by omega⟩
     simp [Gen.GrpcStatus.grpcToHttp, docTable]
 
+/-- The same, against the table as it stands in docs/eng/grpc-generator.md NOW: both sides are regenerated on every
+run (the switch of `ConvertGrpcStatus` and the rows of the markdown table), for ALL status codes. -/
+theorem C10_grpc_table_documented :
+    ∀ c : Nat, Gen.GrpcStatus.grpcToHttp c =
+      Bridge.GrpcStatus.lookupRows Gen.GrpcStatus.docRows Gen.GrpcStatus.docDefault c :=
+  fun c => (C10_grpc_table c).trans (Bridge.GrpcStatus.docTable_eq_doc c)
+
 /-! ## exactly one sample per request -/
 
 /-- On EVERY path of every gun exactly one sample is reported per request / per executed step:
@@ -80,6 +87,37 @@ theorem C10_one_sample_per_request :
 theorem C10_connect_hook_drops_sample (cfg : AutoTagCfg) (s : HttpShot) (h : s.connectHook = some false) :
     (shootHttp cfg s).reports = [] := by
   simp [shootHttp, h]
+
+/-- The other way a fired request goes unreported: a postprocessor of an http scenario step that PANICS (excluded by
+`NoPanic` above; that postprocessors do not panic on any response is property C19). The shot aborts without the
+step's sample. -/
+theorem C10_postprocessor_panic_drops_sample (scn : String) (s : Step) (rest : List Step) (st : Nat)
+    (h : s.outcome = .received st .panic) :
+    (shootScenario scn (s :: rest)).reports = [] ∧ (shootScenario scn (s :: rest)).panicked = true := by
+  simp [shootScenario, stepHttp, h]
+
+/-- The documented fatal condition (http2 gun, target without HTTP/2: `Do` panics and the run is aborted): the deferred
+`Report` still fires once; the sample carries proto 0 and net 0 although no response was received — the one failed
+exchange whose net code is 0. -/
+theorem C10_http2_fatal_sample (cfg : AutoTagCfg) (s : HttpShot) (hc : s.connectHook = none) (hv : s.invalid = false)
+    (ho : s.outcome = .doPanic) :
+    shootHttp cfg s = { reports := [{ tags := httpTag cfg s.ammoTag s.path, id := s.id, proto := 0, net := 0 }], panicked := true } := by
+  simp [shootHttp, hc, hv, ho]
+
+/-- A whole scenario shot in closed form: the samples are exactly the per-step samples of the executed steps (the steps
+up to and including the first one that fails), in order; every executed step but the last one passed. This joins the
+per-step statements below (`C10_proto`, `C10_netcode_scenario`) to whole shots of any length. -/
+theorem C10_scenario_shot :
+    (∀ (scn : String) (steps : List Step), NoPanic steps →
+        (shootScenario scn steps).reports = (steps.take (executedSteps steps)).map (stepSample scn) ∧
+        (shootScenario scn steps).panicked = false ∧
+        executedSteps steps ≤ steps.length ∧
+        (∀ i, i + 1 < executedSteps steps → ∃ s st, steps[i]? = some s ∧ s.outcome = .received st .ok)) ∧
+    (∀ (scn : String) (steps : List GrpcStep),
+        (shootGrpcScenario scn steps).reports = (steps.take (executedGrpcSteps steps)).map (grpcStepSample scn)) :=
+  ⟨fun scn steps hp => ⟨(shootScenario_reports scn steps hp).1, (shootScenario_reports scn steps hp).2,
+      executedSteps_le steps, executed_prefix_passed steps⟩,
+   shootGrpcScenario_reports⟩
 
 /-! ## net code -/
 
@@ -181,6 +219,25 @@ theorem C10_proto :
     simp [shootGrpc, grpcProto] at hr; subst hr; exact htab c
   · intro scn s c p ho r hr
     cases p <;> (simp [stepGrpc, ho, grpcStepProto] at hr; subst hr; exact htab c)
+
+/-- FULL reading of "one such sample per executed step" for the http scenario gun: whenever the target's response head
+with status `st` was received for a step, the step's sample carries `st`. FALSE for the code as it is (and by design of
+`reportErr`): a step whose response is rejected by an assertion, or whose body breaks off, is reported with proto 0. -/
+def C10_scenario_proto_statement : Prop :=
+  ∀ (scn : String) (s : Step) (st : Nat),
+    (∃ p, s.outcome = .received st p ∧ p ≠ .panic) ∨ (∃ e, s.outcome = .bodyErr st e) →
+    ∀ r ∈ (stepHttp scn s).1, r.proto = st
+
+theorem C10_scenario_proto_partial (scn : String) (s : Step) (st : Nat) (h : s.outcome = .received st .ok) :
+    ∀ r ∈ (stepHttp scn s).1, r.proto = st := by
+  intro r hr
+  simp [stepHttp, h, okSample] at hr; subst hr; rfl
+
+theorem C10_scenario_proto_counterexample : ¬ C10_scenario_proto_statement := by
+  intro h
+  have := h "scn" ⟨"b", .received 500 .err⟩ 500 (Or.inl ⟨.err, rfl, by decide⟩)
+    (errSample "scn" "b") (by simp [stepHttp])
+  exact absurd this (by decide)
 
 /-! ## tags -/
 
@@ -328,17 +385,86 @@ theorem C10_tag :
             obtain ⟨s', hs', ht⟩ := ih j r h
             exact ⟨s', by simpa using hs', ht⟩
 
+/-- No sample of an http gun has an empty tag: plain guns (valid or invalid ammo, every outcome) and scenario steps. -/
+theorem C10_tag_nonempty :
+    (∀ (cfg : AutoTagCfg) (s : HttpShot), ∀ r ∈ (shootHttp cfg s).reports, r.tags ≠ "") ∧
+    (∀ (scn : String) (s : Step), ∀ r ∈ (stepHttp scn s).1, r.tags ≠ "") := by
+  constructor
+  · intro cfg s r hr
+    unfold shootHttp at hr
+    cases hc : s.connectHook with
+    | some b =>
+      cases b with
+      | false => simp [hc] at hr
+      | true =>
+        simp only [hc] at hr
+        by_cases hi : s.invalid = true
+        · simp [hi] at hr; subst hr; exact addTag_ne_empty _ _ emptyTag_ne
+        · simp only [hi] at hr
+          cases ho : s.outcome with
+          | doErr e => simp [ho] at hr; subst hr; exact httpTag_ne_empty _ _ _
+          | response st b => cases b <;> (simp [ho] at hr; subst hr; exact httpTag_ne_empty _ _ _)
+          | doPanic => simp [ho] at hr; subst hr; exact httpTag_ne_empty _ _ _
+    | none =>
+      simp only [hc] at hr
+      by_cases hi : s.invalid = true
+      · simp [hi] at hr; subst hr; exact addTag_ne_empty _ _ emptyTag_ne
+      · simp only [hi] at hr
+        cases ho : s.outcome with
+        | doErr e => simp [ho] at hr; subst hr; exact httpTag_ne_empty _ _ _
+        | response st b => cases b <;> (simp [ho] at hr; subst hr; exact httpTag_ne_empty _ _ _)
+        | doPanic => simp [ho] at hr; subst hr; exact httpTag_ne_empty _ _ _
+  · intro scn s r hr
+    have herr : (errSample scn s.name).tags ≠ "" := addTag_ne_empty _ _ emptyTag_ne
+    cases ho : s.outcome with
+    | prepErr => simp [stepHttp, ho] at hr; subst hr; exact herr
+    | doErr e => simp [stepHttp, ho] at hr; subst hr; exact herr
+    | bodyErr st e => simp [stepHttp, ho] at hr; subst hr; exact herr
+    | received st post =>
+      cases post with
+      | ok => simp [stepHttp, ho] at hr; subst hr; exact stepTag_ne_empty _ _
+      | err => simp [stepHttp, ho] at hr; subst hr; exact herr
+      | panic => simp [stepHttp, ho] at hr
+
+/-- The gRPC guns do NOT substitute `__EMPTY__`: an ammo without a tag gives a sample with the empty tag (the tag is "the
+ammo's tag" verbatim; the `__EMPTY__` clause of the property is anchored at, and holds for, the http guns). -/
+theorem C10_grpc_tag_may_be_empty : ∃ o, ∃ r ∈ (shootGrpc "" o).reports, r.tags = "" :=
+  ⟨.invoked 0, _, List.mem_singleton.mpr rfl, rfl⟩
+
 /-! ## ids -/
 
-/-- Ids handed out by the atomic counter are pairwise distinct — and exactly `c+1 … c+n` — under EVERY schedule
-(any number of instances, any interleaving of their `Acquire` calls, any length), and every scheduled instance gets one. -/
-theorem C10_ids_unique {ι : Type} (c : Nat) (sched : List ι) :
+/-- Ids handed out by the atomic 64-bit counter are pairwise distinct under EVERY schedule (any number of instances, any
+interleaving of their `Acquire` calls) of up to 2^64 acquisitions; every scheduled instance gets one; and as long as the
+counter does not wrap they are exactly `c+1 … c+n`. -/
+theorem C10_ids_unique {ι : Type} (c : Nat) (sched : List ι) (h : sched.length ≤ idModulus) :
     ((runIds c sched).map Prod.snd).Nodup ∧
-    (runIds c sched).map Prod.snd = List.range' (c + 1) sched.length ∧
-    (runIds c sched).map Prod.fst = sched := by
-  refine ⟨?_, runIds_snd c sched, runIds_fst c sched⟩
-  rw [runIds_snd]
-  exact List.nodup_range'
+    (runIds c sched).map Prod.fst = sched ∧
+    (c + sched.length < idModulus → (runIds c sched).map Prod.snd = List.range' (c + 1) sched.length) := by
+  refine ⟨?_, runIds_fst c sched, ?_⟩
+  · rw [runIds_snd]; exact ids_nodup c _ h
+  · intro hs; rw [runIds_snd]; exact ids_small c _ hs
+
+/-- Without the bound the statement is false: the counter is a `uint64`. -/
+def C10_ids_unique_unbounded_statement : Prop :=
+  ∀ (sched : List Unit), ((runIds 0 sched).map Prod.snd).Nodup
+
+theorem C10_ids_unique_unbounded_counterexample : ¬ C10_ids_unique_unbounded_statement := fun h =>
+  ids_wrap (List.replicate (idModulus + 1) ()) (List.length_replicate ..) (h _)
+
+/-- A whole pool run of a plain http gun (http, http2, connect): instances acquire ammo in any interleaving (each
+acquisition takes the next id), every acquired ammo is shot once with ANY outcome (response, transport error, broken
+body, invalid ammo, fatal panic) under any auto-tag setting, and the samples reach the aggregator in ANY order
+(`reported` is a permutation of the run's samples): exactly one sample per acquired ammo and pairwise distinct ids. -/
+theorem C10_run_ids_unique {ι : Type} (cfg : AutoTagCfg) (c : Nat) (plans : List (ι × ShotPlan))
+    (h : plans.length ≤ idModulus) (reported : List Sample) (hperm : reported.Perm (runPool cfg c plans)) :
+    reported.length = plans.length ∧ (reported.map (·.id)).Nodup := by
+  have hids := runPool_ids cfg c plans
+  constructor
+  · rw [hperm.length_eq]
+    have := congrArg List.length hids
+    simpa using this
+  · rw [(hperm.map (·.id)).nodup_iff, hids]
+    exact ids_nodup c _ h
 
 /-- The id carried by the http gun's sample is the ammo's id: distinct ammo ids give distinct sample ids. -/
 theorem C10_sample_id (cfg : AutoTagCfg) (s : HttpShot) (hc : s.connectHook = none) :
@@ -372,6 +498,13 @@ example : (shootHttp ⟨true, 1, false⟩ { ammoTag := "t", id := 7, path := "/a
 example : (shootScenario "scn" [⟨"a", .received 200 .ok⟩, ⟨"b", .received 500 .err⟩, ⟨"c", .received 200 .ok⟩]).reports
     = [{ tags := "scn.a", id := 0, proto := 200, net := 0 }, { tags := "scn.b|__EMPTY__", id := 0, proto := 0, net := 999 }] := by decide
 example : executedSteps [⟨"a", .received 200 .ok⟩, ⟨"b", .received 500 .err⟩, ⟨"c", .received 200 .ok⟩] = 2 := by decide
+-- a run of three acquisitions by two instances: one sample each, ids 1 2 3 (any arrival order is a permutation)
+example : (runPool ⟨false, 2, true⟩ 0 [("i1", ⟨"a", "/x", .response 200 none, false⟩), ("i2", ⟨"", "/y", .doErr .timeout, false⟩),
+    ("i1", ⟨"", "/z", .response 503 (some .other), false⟩)]).map (fun r => (r.id, r.proto, r.net))
+    = [(1, 200, 0), (2, 0, 110), (3, 503, 999)] := by decide
+example : NoPanic [⟨"a", .received 200 .ok⟩, ⟨"b", .received 500 .err⟩] := by
+  intro s hs st; simp at hs; rcases hs with rfl | rfl <;> simp
+example : (3 : Nat) ≤ idModulus := by decide
 -- three instances interleaved
 example : runIds 0 ["i1", "i2", "i1", "i3", "i2"] = [("i1", 1), ("i2", 2), ("i1", 3), ("i3", 4), ("i2", 5)] := by decide
 example : (shootGrpc "tg" (.invoked 14)).reports = [{ tags := "tg", id := 0, proto := 503, net := 0 }] := by decide
